@@ -275,6 +275,27 @@ pub fn run_message_mask(
                     hist.push((l, d));
                 }
             }
+            // three cases in eight first decode, on the same parser, a near relative of the judged
+            // payload (unfragmented, hence inert): the same characters under another fill count,
+            // the same with the last character changed, or the payload without its last character
+            let h = crate::rng::fnv(&chars);
+            let rel: Option<(Vec<u8>, u8)> = match h % 8 {
+                0 => Some((chars.clone(), ((fill as u64 + 1 + (h >> 8) % 5) % 6) as u8)),
+                1 => {
+                    let mut c = chars.clone();
+                    if let Some(l) = c.last_mut() {
+                        *l = if *l == b'w' { b'0' } else { b'w' };
+                    }
+                    Some((c, fill))
+                }
+                2 if chars.len() > 1 => Some((chars[..chars.len() - 1].to_vec(), 0)),
+                _ => None,
+            };
+            if let Some((c, f)) = rel {
+                let l = crate::nmea_ref::mk(1, 1, None, &c, f);
+                let _ = p.parse(&l, true);
+                hist.push((l, true));
+            }
             hist.push((line.clone(), true));
             let call = match p.parse(&line, true) {
                 mon::Call::Done(crate::observe::Outcome::Complete(s)) => match (s.message, s.message_debug) {
@@ -297,6 +318,20 @@ pub fn run_message_mask(
                     let _ = p.parse(&l, d);
                     hist.push((l, d));
                 }
+            }
+            // a near relative decoded first on the same parser (see Via::Line)
+            match r.below(6) {
+                0 => {
+                    let l = crate::nmea_ref::mk(1, 1, None, &chars, ((fill as u64 + 1 + r.below(5)) % 6) as u8);
+                    let _ = p.parse(&l, true);
+                    hist.push((l, true));
+                }
+                1 if chars.len() > 1 => {
+                    let l = crate::nmea_ref::mk(1, 1, None, &chars[..chars.len() - 1], 0);
+                    let _ = p.parse(&l, true);
+                    hist.push((l, true));
+                }
+                _ => {}
             }
             let parts = if chars.len() < 2 { 1 } else { r.usize(2, 5.min(chars.len())) };
             let mut cuts: Vec<usize> = Vec::new();
